@@ -56,6 +56,13 @@ Theorem C18_arc_points_row_major_in_bbox : forall a,
   StronglySorted lt_yx (ar_points a) /\ (forall p, In p (ar_points a) -> contains (ar_bbox a) p = true).
 Proof. intros a H. split; [apply arc_points_sorted, H | intros p; apply arc_points_in_bbox, H]. Qed.
 
+(* K18_tiny_sweep_opposite_side is also true (det = 0) for exactly opposite rounded normals - sweeps just below
+   180 deg; nothing is wrong there: the Intersection is exactly one closed half plane *)
+Theorem C18_sector_opposite_normals_half_plane : forall ps dl,
+  ps_op ps = OpIntersection -> ps_left ps = pneg (ps_right ps) ->
+  ps_contains ps dl = (0 <=? sm_odist (ps_right ps) dl).
+Proof. exact sector_opposite_normals_half_plane. Qed.
+
 (* a sector of 180 deg or more (operation Union), exactly: the circle minus the open integer cone that lies
    strictly beyond BOTH radial lines - centre-near points included *)
 Theorem C18_sector_union_exact : forall s p,
@@ -171,7 +178,7 @@ Proof. exact arc_covers_sweep. Qed.
           Union from 180.001; right / left normal within eps (componentwise) of 1024 (-sin t, cos t) for
           t = min(start, start+sweep) resp. t + |sweep|.  `trig_check` of harness/src/suites/c18_sector.rs is its
           executable counterpart (f64), run by p_trig_deg / p_trig_pairs / p_trig_rand / p_trig_stride / p_trig_bits
-          on both builds: measured eps 2.12 (f32), 9.85 (fixed_point).
+          on both builds: measured eps over EVERY f32 angle in +-1440 deg: 2.118 (f32), 9.858 (fixed_point).
      rays_proper ps      det > 0 of the two rays (Intersection: negation of K18_tiny_sweep_opposite_side; Union: for
           the complement cone, or both normals equal); tested by trig_check outside the resolution bands.
      sweep_unambiguous   |sweep| not in [179.999, 180.001) or [359.999, 360), where the f32 comparisons go either way.
